@@ -180,7 +180,26 @@ def sc_oneshot_partial(rng, k, deep):
     L += ["m peerw %d 3 2" % k, "m quiesce", "m tkcount %d" % k, "m tkfree %d" % k, "m reset"]
     return L
 
-KINDS = [("stream-read", sc_stream_read, 10), ("stream-write", sc_stream_write, 4), ("file", sc_file, 3),
+def sc_trickle(rng, k, deep):
+    """bytes arrive one event at a time into a larger window: the library accumulates across events (tot_transfered_size)
+    and reports the sum with the next condition (window full, EOF, timeout)"""
+    tr = rng.randint(3, 5); off = rng.randint(0, 2); size = off + tr + rng.randint(0, 1)
+    efl = rng.choice([0, 2]); n = rng.randint(2, tr + 1)
+    fin = rng.choice(["full", "close", "timeout", "stop"])
+    tmo = 40 if fin == "timeout" else rng.choice([0, 60000])
+    P = {"P": "C", "F": rng.choice(["sN", "rC,sN"]), "E": "sE", "T": rng.choice(["sN", "C,sN"]), "X": "sX"}
+    L = ["m tknew %d 0 %d %d %d %d" % (k, size, off, tr, off)] + pol_lines(k, P)
+    L += w0(["tkcreate %d 0 0 0" % k, "tkstart %d 0 0 %d %d 0" % (k, efl, tmo)])
+    sent = 0
+    for i in range(n if fin == "full" else min(n, tr - 1)):
+        L += ["m peerw %d %d 1" % (k, i + 1), "m quiesce"]; sent += 1
+    if fin == "close": L.append("m peerclose %d" % k)
+    elif fin == "timeout": L.append("m tkwait %d 1 1 10000" % k)
+    elif fin == "stop": L += w0(["tkstop %d" % k]) + ["m quiesce", "m tkcount %d" % k] + w0(["tkrestart %d" % k]) + ["m peerw %d %d %d" % (k, sent + 1, tr)]
+    L += ["m quiesce", "m tkcount %d" % k, "m tkfree %d" % k, "m reset"]
+    return L
+
+KINDS = [("trickle", sc_trickle, 3), ("stream-read", sc_stream_read, 10), ("stream-write", sc_stream_write, 4), ("file", sc_file, 3),
          ("errpath", sc_errpath, 2), ("dispatch-eof", sc_dispatch_eof, 1), ("oneshot-partial", sc_oneshot_partial, 1)]
 
 def gen_batch(rng, count, deep, perturb=True):
